@@ -5,6 +5,7 @@ they reach handlers.
 """
 
 import asyncio
+import posixpath
 import time
 from dataclasses import dataclass, field
 from ipaddress import (
@@ -14,7 +15,7 @@ from ipaddress import (
     ip_network,
 )
 from typing import Protocol
-from urllib.parse import urlparse
+from urllib.parse import unquote, urlparse
 
 
 class Middleware(Protocol):
@@ -346,9 +347,16 @@ class CertificateAuth:
         """
         try:
             parsed = urlparse(request_url)
-            return parsed.path or "/"
+            path = unquote(parsed.path) or "/"
         except Exception:
             return "/"
+
+        # Match rules against the location the handlers will actually serve:
+        # percent-decoded, without repeated slashes and dot segments
+        normalized = posixpath.normpath("/" + path.lstrip("/"))
+        if path.endswith("/") and normalized != "/":
+            normalized += "/"
+        return normalized
 
     def _find_matching_rule(self, path: str) -> CertificateAuthPathRule | None:
         """Find the first matching path rule.
@@ -359,8 +367,11 @@ class CertificateAuth:
         Returns:
             The first matching rule, or None if no rule matches.
         """
+        # A directory may be requested without its trailing slash ("/app" for the
+        # prefix "/app/"): it is served as that directory, so the rule applies
+        as_directory = path if path.endswith("/") else path + "/"
         for rule in self.config.path_rules:
-            if path.startswith(rule.prefix):
+            if path.startswith(rule.prefix) or as_directory == rule.prefix:
                 return rule
         return None
 
